@@ -74,7 +74,9 @@ class World:
                 g.setdefault(name, val)
         g["pattern"] = self.pattern_mod
         g["pattern_tools"] = self.pattern_mod
-        g["string_replace_map"] = self.string_replace_map
+        g["string_replace_map"] = self.real_replace_map
+        self._srm_world = None
+        self._srm_memo = {}
         for mod in (UT, F03):
             path = m.modfile.get(mod)
             for (p_, q), f in m.funcs.items():
@@ -137,6 +139,18 @@ class World:
     def string_replace_map(line, lower=False):
         mapped, restore = one_taint._mini_map(line, lower=lower)
         return mapped, restore
+
+    def real_replace_map(self, line, lower=False):
+        """fparser.common.splitline.string_replace_map itself, interpreted (the 40-line model above is kept for the helpers that
+        only need to find the literals and groups of a text); results are remembered per (line, lower) like the real memo"""
+        key = (line, lower)
+        if key not in self._srm_memo:
+            if self._srm_world is None:
+                from rules import reader_interp as _RI
+                self._srm_world = _RI.World(self.m, mods=(_RI.SL,))
+                self._srm_world.ev.max_steps = 10 ** 9
+            self._srm_memo[key] = self._srm_world.call("fparser.common.splitline", "string_replace_map", line, lower=lower)
+        return self._srm_memo[key]
 
     def _getattr(self, obj, name, *default):
         if isinstance(obj, PE.Obj):
@@ -1381,7 +1395,11 @@ def expression_cases():
         cases.append((".u. a %s b" % o, "[[.u. a] %s b]" % o))
     cases += [("(a + b) * c", "[([a + b]) * c]"), ("a * (b + c) ** 2", "[a * [([b + c]) ** 2]]"), ("a ** -b", None),
               ("a + b * c ** d", "[a + [b * [c ** d]]]"), ("a .or. b .and. c == d + e * f ** g", "[a .or. [b .and. [c == [d + [e * [f ** g]]]]]]"),
-              ("((a))", "((a))"), ("a - b - c - d", "[[[a - b] - c] - d]"), ("a ** b ** c ** d", "[a ** [b ** [c ** d]]]")]
+              ("((a))", "((a))"), ("a - b - c - d", "[[[a - b] - c] - d]"), ("a ** b ** c ** d", "[a ** [b ** [c ** d]]]"),
+              # names that end like an exponent letter, operators written without blanks, a literal with an exponent next to them
+              ("x2d-1", "[x2d - 1]"), ("n1e+k", "[n1e + k]"), ("a*x2d-1+c", "[[[a * x2d] - 1] + c]"), ("y-u3d+1.0e-3", "[[y - u3d] + 1.0E-3]"),
+              ("e1-d2", "[e1 - d2]"), ("a2e*b+c", "[[a2e * b] + c]"), ("a//b+c", "[a // [b + c]]"), ("a // b - c // d", "[[a // [b - c]] // d]"),
+              ("x == a // b + c", "[x == [a // [b + c]]]")]
     return [c for c in cases if c[1] is not None]
 
 
